@@ -24,6 +24,7 @@ import subprocess
 
 import gen_tables
 import itertools
+import shutil
 import modelgen
 import vlib
 
@@ -34,7 +35,8 @@ THEOREMS = ["Yardl.C08.derived_identifier_never_reserved", "Yardl.C08.cpp_suffix
             "Yardl.C08.no_reserved_word_ends_with_a_suffix", "Yardl.C08.snake_case_keeps_the_letters", "Yardl.C08.same_snake_case_only_by_capitalisation",
             "Yardl.C08.underscore_suffix_keeps_members_distinct", "Yardl.C08.underscore_suffix_keeps_enum_values_distinct",
             "Yardl.C08.cpp_plain_field_suffix_collided", "Yardl.C08.cpp_fields_stay_distinct", "Yardl.C08.cpp_field_rec_never_reserved",
-            "Yardl.C08.pascal_case_keeps_members_distinct", "Yardl.C08.cpp_step_methods_collide_iff", "Yardl.C08.cpp_step_methods_collide_witness"]
+            "Yardl.C08.pascal_case_keeps_members_distinct", "Yardl.C08.cpp_step_methods_collide_iff", "Yardl.C08.cpp_step_methods_collide_witness",
+            "Yardl.C08.accepted_members_get_distinct_identifiers"]
 
 
 def run(report, tier, seed):
@@ -55,6 +57,7 @@ def run(report, tier, seed):
         rng = random.Random(seed * 8009 + 8)
         reserved = tables["pipeline"]["reserved"]
         identifiers(report, inproc, lean, reserved, rng, 300 if quick else 3000)
+        member_rules(report, ybin, sc, lean, rng, 60 if quick else 600, seed)
         lean.close()
         jobs = []
         jobs += list(known_finding_witnesses(sc))
@@ -116,6 +119,51 @@ def identifiers(report, inproc, lean, reserved, rng, n_random):
         want = lean.ask({"op": "ident", "lang": "cpp", "suffix": "_value", "cased": "k" + r["pascal"]})["ident"]
         if r["cppEnumValue"] != want:
             report.violation("identifier:cppEnumValue:differs-from-model", {"name": r["name"], "real": r["cppEnumValue"], "model": want}, "")
+
+
+def member_rules(report, ybin, sc, lean, rng, n, seed):
+    """the validator's member-name rules against Case.membersOk: records (fields + computed fields), protocols (steps) and enums are not mixed -
+    one record or one protocol per package, 2-5 names drawn from a pool made to collide (capitalisation, digits, underscores, length)"""
+    pool = ["fooBar", "fooBAR", "foobar", "fooBaR", "a1", "a1b", "aB1", "ab1", "ab_1", "x", "xY", "xy", "class", "classField", "class_field", "Abc", "9a", "a" * 64, "a" * 65,
+            "valueOne", "valueONE", "int32Value", "int32value", "uint8", "uInt8", "base64", "base64X", "tRex", "trex", "t_rex", "", "é", "a-b", "iOReader", "ioReader"]
+    import concurrent.futures
+
+    def one(k):
+        r = random.Random(seed * 7919 + k)
+        names = [r.choice(pool) for _ in range(r.choice([2, 2, 3, 4, 5]))]
+        as_protocol = k % 3 == 2
+        n_fields = len(names) if as_protocol else r.randrange(1, len(names) + 1)
+        d = sc.path(f"mr{k}")
+        os.makedirs(d, exist_ok=True)
+        q = lambda s_: json.dumps(s_)
+        if as_protocol:
+            model = "P: !protocol\n  sequence:\n" + "".join(f"    {q(x)}: int\n" for x in names)
+        else:
+            model = "R: !record\n  fields:\n" + "".join(f"    {q(x)}: int\n" for x in names[:n_fields])
+            if names[n_fields:]:
+                model += "  computedFields:\n" + "".join(f"    {q(x)}: 1\n" for x in names[n_fields:])
+        # duplicate YAML keys are rejected by the YAML layer before the rules run: the same verdict (rejected), another path
+        open(os.path.join(d, "_package.yml"), "w").write("namespace: Mr\n")
+        open(os.path.join(d, "model.yml"), "w").write(model)
+        rc, out, err = vlib.yardl(ybin, d, "validate")
+        shutil.rmtree(d, ignore_errors=True)
+        return names, as_protocol, n_fields, rc, (out + err)[-600:], model
+    with concurrent.futures.ThreadPoolExecutor(max_workers=8) as ex:
+        results = list(ex.map(one, range(n)))
+    for names, as_protocol, n_fields, rc, text, model in results:
+        m = lean.ask({"op": "members_ok", "names": names})
+        report.case(distinct_key=("member-rules", tuple(names), as_protocol, n_fields))
+        if m.get("unmodelled"):
+            report.count("member-rules.unmodelled")
+            if rc == 0:
+                report.violation("member-rules:name-outside-the-alphabet-accepted", {"names": names, "model": model, "output": text}, "a member name with characters outside [A-Za-z0-9_] is accepted")
+            continue
+        report.count("member-rules.accepted" if m["ok"] else "member-rules.rejected")
+        if (rc == 0) != m["ok"]:
+            report.violation(f"member-rules:{'accepted-by-the-tool-only' if rc == 0 else 'rejected-by-the-tool-only'}",
+                             {"names": names, "as": "protocol steps" if as_protocol else f"record: {n_fields} fields, then computed fields", "model_yaml": model, "tool_rc": rc, "tool_output": text,
+                              "model_verdict": m["ok"], "theorem_or_correspondence": "Case.membersOk vs validateRecordFieldNames / validateProtocolSequenceNames", "seed": seed},
+                             "the validator's member-name rules are not the ones Yardl.C08.accepted_members_get_distinct_identifiers is about")
 
 
 def case_conversions(report, inproc, lean, words, rng, n_random):
